@@ -229,8 +229,14 @@ class QosWorld:
         L = lib()
         if self.tx._closing:
             raise L["exc"].TransportError("Transport is closing or has closed")
-        if "wfail" in self.dev:
+        if "wfail" in self.dev and self.params.get("flat"):  # explicit-state mode: no choice points inside callbacks
+            a = ("w_fail",) if self.fail_next_write else ("w_ok",)
+            self.fail_next_write = False
+        elif "wfail" in self.dev:
             a = self.ch.choose([(("w_ok",), 0), (("w_fail",), 1)])
+        else:
+            a = ("w_ok",)
+        if True:
             if a[0] == "w_fail":
                 self.writes.append((self.nseq(), self.loop.time(), frame, "FAILED", self.loop.batches))
                 raise L["exc"].TransportError("harness: write failed")
@@ -330,6 +336,8 @@ class QosWorld:
             ts = loop.timers()
             if len(ts) > 1 and ts[1] - ts[0] <= W and ts[1] > ts[0]:
                 acts.append((("advance_late",), 1))
+        if "wfail" in dev and self.params.get("flat") and not self.fail_next_write and self.connected:
+            acts.append((("arm_wfail",), 1))  # the next write will fail
         if "disc" in dev and self.connected:
             acts.append((("disc",), 1))
         if "pause" in dev and not self.paused and self.connected:
@@ -384,6 +392,8 @@ class QosWorld:
             else:
                 err = None  # clean close
             loop.call_soon(self.proto.connection_lost, err)
+        elif k == "arm_wfail":
+            self.fail_next_write = True
         elif k == "pause":
             self.paused = True
             self.proto.pause_writing()
@@ -523,3 +533,110 @@ def run(params: dict, prefix=(), expect=None):
     w = QosWorld(params, prefix, expect)
     obs = w.execute()
     return w.ch, obs
+
+
+# ---------------------------------------------------------------------------------------------------------
+# explicit-state search support (C09 thorough): run a label-scripted prefix, stop at the frontier, canonicalise
+
+
+class Frontier(Exception):
+    def __init__(self, acts) -> None:
+        self.acts = acts
+
+
+class ScriptChooser(Chooser):
+    """Follows a script of action LABELS; raises Frontier (with the enabled menu) when the script is exhausted."""
+
+    def __init__(self, script) -> None:
+        super().__init__((), None)
+        self.script = [tuple(x) for x in script]
+
+    def choose(self, acts: list):
+        i = len(self.choices)
+        if i >= len(self.script):
+            raise Frontier(acts)
+        want = self.script[i]
+        for k, (lab, _cost) in enumerate(acts):
+            if tuple(lab) == want:
+                self.choices.append(k)
+                self.menus.append(acts)
+                return lab
+        raise RuntimeError(f"scripted action {want} not enabled at point {i}: {[a[0] for a in acts]}")
+
+
+def _handle_sig(h) -> tuple:
+    cb = getattr(h, "_callback", None)
+    name = getattr(cb, "__qualname__", None) or getattr(getattr(cb, "func", None), "__qualname__", None) or type(cb).__name__
+    owner = getattr(cb, "__self__", None)
+    extra = ""
+    if isinstance(owner, asyncio.Task):
+        coro = owner.get_coro()
+        fr = getattr(coro, "cr_frame", None)
+        extra = f"{getattr(coro, '__qualname__', '')}@{fr.f_lasti if fr is not None else 'done'}"
+    elif isinstance(owner, asyncio.Future):
+        extra = "fut:" + ("cancelled" if owner.cancelled() else "done" if owner.done() else "pending")
+    args = getattr(h, "_args", ()) or ()
+    a = tuple(str(x)[:60] if not isinstance(x, (asyncio.Future,)) else "fut" for x in args)
+    return (name, extra, a)
+
+
+def canon(w: "QosWorld") -> tuple:
+    """A deliberately fine canonical form of a qos world between two actions (too fine only costs time)."""
+    loop = w.loop
+    now = loop.time()
+    ready = tuple(_handle_sig(h) for h in loop._ready if not h._cancelled)
+    timers = tuple(sorted((round(h._when - now, 6), _handle_sig(h)) for h in loop._scheduled if not h._cancelled))
+    fs = w.fsm_state()
+    callers = tuple(
+        None
+        if c is None
+        else (c["res"] if c["res"] is None or c["res"][0] != "pkt" else ("pkt", c["res"][1]), None if c["end_t"] is None else "ended")
+        for c in w.callers
+    )
+    pending = tuple((p["kind"], p["frame"], bool(p.get("dup"))) for p in w.pending)
+    q = tuple(sorted((e[0], str(e[2]), "done" if e[4].done() else "pending") for e in list(w.ctx._que.queue)))
+    return (tuple(sorted(fs.items(), key=lambda kv: kv[0])), q, ready, timers, callers, pending, w.connected, w.paused, w.fail_next_write, len(w.writes) if len(w.writes) < 12 else 12, tuple(sorted(w.foreign_done)))
+
+
+def run_script(params: dict, script):
+    """Build a fresh world, start its callers, follow `script` (action labels). -> (world, enabled menu | None when the episode
+    has ended by itself, deadlock text | None).  The caller must dispose of the world (finish_script)."""
+    L = lib()
+    w = QosWorld(params)
+    w.ch = ScriptChooser(script)
+    n = len(params["callers"])
+    w.callers = [None] * n
+    for i, c in enumerate(params["callers"]):
+        if c.get("start", "t0") == "t0":
+            w.start_caller(i)
+    acts = None
+    try:
+        while True:
+            w.steps += 1
+            if w.steps > params.get("max_steps", 3000):
+                w.cap_hit = True
+                break
+            menu = w.enabled()
+            if not menu:
+                break
+            a = w.ch.choose(menu)
+            w.perform(a)
+    except Frontier as f:
+        acts = f.acts
+    except DeadlockError as e:
+        w.deadlock = str(e)
+    return w, acts
+
+
+def finish_script(w: "QosWorld", terminal: bool) -> dict:
+    """Observe (with the probe when the episode has ended) and dispose."""
+    L = lib()
+    obs = w.observe()
+    if terminal and w.params.get("probe", True) and not w.deadlock and not w.cap_hit:
+        obs["probe"] = w.probe()
+    gc.collect()
+    obs["loop_exc"] = [w._exc_sig(c) for c in w.loop.exc]
+    obs["log_exc"] = list(logcap.CAP.records)
+    dispose_loop(w.loop)
+    L["F"].Lock = L["real_lock"]
+    return obs
